@@ -14,6 +14,7 @@ from ml_pipeline_engine.dag.enums import EdgeField
 from ml_pipeline_engine.dag.enums import NodeField
 from ml_pipeline_engine.dag.errors import OneOfDoesNotHaveResultError
 from ml_pipeline_engine.dag.errors import RecurrentSubgraphDoesNotHaveResultError
+from ml_pipeline_engine.dag.errors import SwitchCaseDoesNotHaveBranchError
 from ml_pipeline_engine.dag.graph import DiGraph
 from ml_pipeline_engine.dag.graph import get_connected_subgraph
 from ml_pipeline_engine.dag.storage import DAGNodeStorage
@@ -589,7 +590,20 @@ class DAGRunConcurrentManager(DAGRunManagerLike):
 
         logger.debug('Prepare Switch DAG node_id=%s', node_id)
 
-        self._add_case_result(node_id)
+        try:
+            self._add_case_result(node_id)
+        except (KeyError, TypeError) as ex:
+            # The switch node has returned a label that matches no case. The run (or the OneOf candidate
+            # that contains the switch) must fail instead of waiting for the switch forever.
+            error = SwitchCaseDoesNotHaveBranchError(node_id, *ex.args)
+
+            if dag.is_oneof:
+                self._node_storage.set_node_result(node_id, error)
+                await self.__unlock_descendants(node_id)
+                await self.__unlock_itself(dag.dest)
+                return None
+
+            await self.__raise_exc(error)
 
         result = await self._run_dag(
             dag=self._get_reduced_dag(
